@@ -165,3 +165,144 @@ Proof.
   { generalize (Z.to_nat (k - zlen (itoa (f32_scaled_abs k b mod 10 ^ k)))). induction n; [reflexivity|]. cbn [repeat]. rewrite has_lf_cons, IHn. reflexivity. }
   rewrite H. destruct (f32_neg b); reflexivity.
 Qed.
+
+(* ---------------------------------------------------------------- the SysStat line *)
+Lemma concat_pairs_pieces : forall (l : list (bytes * bytes)),
+  List.concat (map (fun nv => fst nv ++ [58] ++ snd nv ++ [58]) l) =
+  List.concat (map (fun p => p ++ [58]) (flat_map (fun nv => [fst nv; snd nv]) l)).
+Proof.
+  induction l as [|[n v] l IH]; [reflexivity|].
+  cbn [map List.concat flat_map]. rewrite IH. cbn [fst snd].
+  change ([n; v] ++ flat_map (fun nv : bytes * bytes => [fst nv; snd nv]) l) with (n :: v :: flat_map (fun nv : bytes * bytes => [fst nv; snd nv]) l).
+  cbn [map List.concat]. rewrite <- !app_assoc. reflexivity.
+Qed.
+
+Lemma split_colon_pieces : forall ps,
+  Forall (fun p => forallb (fun x => negb (x =? 58)) p = true) ps ->
+  split_on 58 (List.concat (map (fun p => p ++ [58]) ps)) = ps ++ [[]].
+Proof.
+  induction ps as [|p ps IH]; intros H; [reflexivity|]. inversion H as [|? ? Hp Hps]; subst.
+  cbn [map List.concat]. rewrite <- app_assoc. cbn [app].
+  rewrite (split_on_app 58 p _ Hp), (IH Hps). reflexivity.
+Qed.
+
+Lemma drop_last_empty_snoc (ps : list bytes) : drop_last_empty (ps ++ [[]]) = ps.
+Proof. unfold drop_last_empty. rewrite rev_app_distr. cbn [rev app]. apply rev_involutive. Qed.
+
+Lemma sys_pairs_cons2 n v rest a :
+  sys_pairs (n :: v :: rest) a = match sys_field n v a with Some a' => sys_pairs rest a' | None => None end.
+Proof. reflexivity. Qed.
+
+(* one field, by its index in the name table *)
+Lemma sf_cpu n x st cpu t e vo ints fl :
+  index_in n ss_names 0 = Some 0%nat -> 0 <= x < 4294967296 ->
+  sys_field n (itoa x) (st, cpu, t, e, vo, ints, fl) = Some (st, x, t, e, vo, ints, fl).
+Proof. intros Hi Hx. unfold sys_field. rewrite Hi. cbn [Nat.eqb]. rewrite (itoa_read_u32 x Hx). reflexivity. Qed.
+
+Lemma sf_temp n b st cpu t e vo ints fl :
+  index_in n ss_names 0 = Some 1%nat -> f32_finite b = true ->
+  sys_field n (fmt_f32 1 b) (st, cpu, t, e, vo, ints, fl) = Some (st && fmt_strict 1 b, cpu, f32_scaled 1 b, e, vo, ints, fl).
+Proof.
+  intros Hi Hb. unfold sys_field. rewrite Hi. cbn [Nat.eqb].
+  change 1%nat with (Z.to_nat 1). rewrite (read_dec_fmt 1 b (or_introl eq_refl) Hb). reflexivity.
+Qed.
+
+Lemma sf_ext n b st cpu t e vo ints fl :
+  index_in n ss_names 0 = Some 2%nat -> f32_finite b = true ->
+  sys_field n (fmt_f32 1 b) (st, cpu, t, e, vo, ints, fl) = Some (st && fmt_strict 1 b, cpu, t, f32_scaled 1 b, vo, ints, fl).
+Proof.
+  intros Hi Hb. unfold sys_field. rewrite Hi. cbn [Nat.eqb].
+  change 1%nat with (Z.to_nat 1). rewrite (read_dec_fmt 1 b (or_introl eq_refl) Hb). reflexivity.
+Qed.
+
+Lemma sf_volt n b st cpu t e vo ints fl :
+  index_in n ss_names 0 = Some 3%nat -> f32_finite b = true ->
+  sys_field n (fmt_f32 2 b) (st, cpu, t, e, vo, ints, fl) = Some (st && fmt_strict 2 b, cpu, t, e, f32_scaled 2 b, ints, fl).
+Proof.
+  intros Hi Hb. unfold sys_field. rewrite Hi. cbn [Nat.eqb].
+  change 2%nat with (Z.to_nat 2). rewrite (read_dec_fmt 2 b (or_intror eq_refl) Hb). reflexivity.
+Qed.
+
+Lemma sf_int n j x st cpu t e vo ints fl :
+  index_in n ss_names 0 = Some (4 + j)%nat -> (j < 8)%nat -> -2147483648 <= x < 2147483648 ->
+  sys_field n (itoa x) (st, cpu, t, e, vo, ints, fl) = Some (st, cpu, t, e, vo, set_nth ints j x, fl).
+Proof.
+  intros Hi Hj Hx. unfold sys_field. rewrite Hi. cbn [Nat.eqb plus].
+  destruct (Datatypes.S (Datatypes.S (Datatypes.S (Datatypes.S j))) <? 12)%nat eqn:E; [|apply Nat.ltb_ge in E; lia].
+  rewrite (itoa_read_i32 x Hx). replace (Datatypes.S (Datatypes.S (Datatypes.S (Datatypes.S j))) - 4)%nat with j by lia. reflexivity.
+Qed.
+
+Lemma b01_read b : read_bool (b01 b) = Some b.
+Proof. destruct b; reflexivity. Qed.
+
+Lemma sf_flag n j b st cpu t e vo ints fl :
+  index_in n ss_names 0 = Some (12 + j)%nat ->
+  sys_field n (b01 b) (st, cpu, t, e, vo, ints, fl) = Some (st, cpu, t, e, vo, ints, set_nth fl j b).
+Proof.
+  intros Hi. unfold sys_field. rewrite Hi. cbn [Nat.eqb plus].
+  destruct (Datatypes.S (Datatypes.S (Datatypes.S (Datatypes.S (Datatypes.S (Datatypes.S (Datatypes.S (Datatypes.S (Datatypes.S (Datatypes.S (Datatypes.S (Datatypes.S j))))))))))) <? 12)%nat eqn:E;
+    [apply Nat.ltb_lt in E; lia|].
+  rewrite b01_read.
+  replace (Datatypes.S (Datatypes.S (Datatypes.S (Datatypes.S (Datatypes.S (Datatypes.S (Datatypes.S (Datatypes.S (Datatypes.S (Datatypes.S (Datatypes.S (Datatypes.S j))))))))))) - 12)%nat with j by lia.
+  reflexivity.
+Qed.
+
+Lemma b01_no_colon b : forallb (fun x => negb (x =? 58)) (b01 b) = true.
+Proof. destruct b; reflexivity. Qed.
+
+Lemma b01_no_lf b : has_lf (b01 b) = false.
+Proof. destruct b; reflexivity. Qed.
+
+Lemma has_lf_concat : forall ps, Forall (fun p => has_lf p = false) ps -> has_lf (List.concat (map (fun p => p ++ [58]) ps)) = false.
+Proof.
+  induction ps as [|p ps IH]; intros H; [reflexivity|]. inversion H as [|? ? Hp Hps]; subst.
+  cbn [map List.concat]. rewrite !has_lf_app, Hp, (IH Hps). reflexivity.
+Qed.
+
+Theorem sem_sys_line s : rep_sys s = true ->
+  exists st, read_out_line (enc_sys s) = WF st [den_sys s].
+Proof.
+  intros H. unfold rep_sys, sys_shape_ok in H. repeat (apply andb_true_iff in H; destruct H as [H ?]).
+  destruct s as [cpu tb eb vb ints fl]. cbn [ss_cpu ss_temp ss_ext ss_volt ss_ints ss_flags] in *.
+  assert (Hli : List.length ints = 8%nat) by (apply Nat.eqb_eq; assumption).
+  assert (Hlf : List.length fl = 8%nat) by (apply Nat.eqb_eq; assumption).
+  destruct ints as [|i0 [|i1 [|i2 [|i3 [|i4 [|i5 [|i6 [|i7 [|]]]]]]]]]; try discriminate.
+  destruct fl as [|b0 [|b1 [|b2 [|b3 [|b4 [|b5 [|b6 [|b7 [|]]]]]]]]]; try discriminate.
+  match goal with Hi : forallb i32b _ = true |- _ => cbn [forallb] in Hi; repeat (apply andb_true_iff in Hi; destruct Hi as [? Hi]) end.
+  repeat match goal with Hx : i32b _ = true |- _ => unfold i32b in Hx; apply andb_true_iff in Hx; destruct Hx as [?Hlo ?Hhi]; apply Z.leb_le in Hlo; apply Z.ltb_lt in Hhi end.
+  match goal with Hc : u32b cpu = true |- _ => unfold u32b in Hc; apply andb_true_iff in Hc; destruct Hc as [Hc1 Hc2]; apply Z.leb_le in Hc1; apply Z.ltb_lt in Hc2 end.
+  unfold enc_sys. rewrite rd_sys. unfold ss_values. cbn [ss_cpu ss_temp ss_ext ss_volt ss_ints ss_flags map seq nth app].
+  let l := eval vm_compute in ss_names in change ss_names with l. cbn [combine].
+  rewrite concat_pairs_pieces. cbn [flat_map fst snd app].
+  match goal with |- context [List.concat (map _ ?ps)] => set (pieces := ps) end.
+  assert (Hnc : Forall (fun p => forallb (fun x => negb (x =? 58)) p = true) pieces).
+  { unfold pieces. repeat (constructor; [first [reflexivity | apply itoa_no_byte; [reflexivity|lia] | apply fmt_no_colon; [tauto|assumption] | apply b01_no_colon]|]). constructor. }
+  assert (Hnl : Forall (fun p => has_lf p = false) pieces).
+  { unfold pieces. repeat (constructor; [first [reflexivity | apply itoa_no_lf | apply fmt_no_lf; [tauto|assumption] | apply b01_no_lf]|]). constructor. }
+  unfold read_value. rewrite (has_lf_concat pieces Hnl). unfold read_sys.
+  destruct (List.concat (map (fun p => p ++ [58]) pieces)) as [|c0 rest0] eqn:Econc.
+  { exfalso. unfold pieces in Econc. cbn in Econc. discriminate. }
+  rewrite <- Econc. rewrite (split_colon_pieces pieces Hnc), drop_last_empty_snoc.
+  unfold pieces, sys_zero. 
+  rewrite sys_pairs_cons2, (sf_cpu _ cpu) by (first [reflexivity | lia]).
+  rewrite sys_pairs_cons2, (sf_temp _ tb) by (first [reflexivity | assumption]).
+  rewrite sys_pairs_cons2, (sf_ext _ eb) by (first [reflexivity | assumption]).
+  rewrite sys_pairs_cons2, (sf_volt _ vb) by (first [reflexivity | assumption]).
+  rewrite sys_pairs_cons2, (sf_int _ 0 i0) by (first [reflexivity | lia]).
+  rewrite sys_pairs_cons2, (sf_int _ 1 i1) by (first [reflexivity | lia]).
+  rewrite sys_pairs_cons2, (sf_int _ 2 i2) by (first [reflexivity | lia]).
+  rewrite sys_pairs_cons2, (sf_int _ 3 i3) by (first [reflexivity | lia]).
+  rewrite sys_pairs_cons2, (sf_int _ 4 i4) by (first [reflexivity | lia]).
+  rewrite sys_pairs_cons2, (sf_int _ 5 i5) by (first [reflexivity | lia]).
+  rewrite sys_pairs_cons2, (sf_int _ 6 i6) by (first [reflexivity | lia]).
+  rewrite sys_pairs_cons2, (sf_int _ 7 i7) by (first [reflexivity | lia]).
+  rewrite sys_pairs_cons2, (sf_flag _ 0 b0) by reflexivity.
+  rewrite sys_pairs_cons2, (sf_flag _ 1 b1) by reflexivity.
+  rewrite sys_pairs_cons2, (sf_flag _ 2 b2) by reflexivity.
+  rewrite sys_pairs_cons2, (sf_flag _ 3 b3) by reflexivity.
+  rewrite sys_pairs_cons2, (sf_flag _ 4 b4) by reflexivity.
+  rewrite sys_pairs_cons2, (sf_flag _ 5 b5) by reflexivity.
+  rewrite sys_pairs_cons2, (sf_flag _ 6 b6) by reflexivity.
+  rewrite sys_pairs_cons2, (sf_flag _ 7 b7) by reflexivity.
+  cbn [sys_pairs]. eexists. unfold den_sys. cbn [ss_cpu ss_temp ss_ext ss_volt ss_ints ss_flags]. reflexivity.
+Qed.
